@@ -68,7 +68,7 @@ pub fn rule(signo: i32, code: i32) -> (i64, bool) {
     }
 }
 
-const MECH: [&str; 12] = ["kill(self)", "raise", "sigqueue(self)", "kill from a grandchild", "child exits", "child killed", "child stopped", "child continued", "setitimer", "timer_create", "write to a closed pipe", "burst of 7 x raise before anything is read (the per-signal buffer holds 5)"];
+const MECH: [&str; 13] = ["kill(self)", "raise", "sigqueue(self)", "kill from a grandchild", "child exits", "child killed", "child stopped", "child continued", "setitimer", "timer_create", "write to a closed pipe", "burst of 7 x raise before anything is read (the per-signal buffer holds 5)", "raise, after an info-less flag::register was the first registration of the signal"];
 
 extern "C" {
     fn sigqueue(pid: libc::pid_t, sig: libc::c_int, value: libc::sigval) -> libc::c_int;
@@ -85,6 +85,10 @@ fn send(mech: usize, sig: i32) -> Option<i32> {
                 Some(me)
             }
             1 => {
+                libc::raise(sig);
+                Some(me)
+            }
+            12 => {
                 libc::raise(sig);
                 Some(me)
             }
@@ -209,6 +213,10 @@ fn real_cell(mech: usize, sig: i32, e: &mut Emit) {
         sa.sa_sigaction = independent as usize;
         sa.sa_flags = libc::SA_SIGINFO;
         libc::sigaction(sig, &sa, std::ptr::null_mut());
+    }
+    if mech == 12 {
+        // the signal's very first registration goes through an entry point that does not want the info
+        let _ = signal_hook::flag::register(sig, std::sync::Arc::new(std::sync::atomic::AtomicBool::new(false)));
     }
     let mut it = match SignalsInfo::<WithOrigin>::new(&[sig]) {
         Ok(i) => i,
@@ -467,7 +475,7 @@ pub fn run(tier: Tier) -> BResult {
         violations,
         exhaustive: a_caps.is_empty(),
         caps: a_caps,
-        rule: "schedules (engine A, deviation-bounded, real code): handlers of one signal running on three threads at once with the origin exfiltrator, every origin handed out carries the facts of a delivery; complete grid sending mechanism (12, incl. a burst longer than the per-signal buffer: every record that comes out must be one of the deliveries) x catchable non-forbidden signal (quick: 6 representative numbers; thorough: all) with the delivery observed by the library twice and by an independent chained SA_SIGINFO reader; plus the complete synthetic grid si_signo 1..64 x si_code in [-10,10]+{0x80,MIN,MAX} with a poisoned union, and again with si_pid / si_uid in {(0,4242), (0,0), (4242,0), (1,1)} (pid 0 = sender outside the receiver's pid namespace); distinct = distinct (mechanism, raw si_code) and (cause class, process?) pairs".into(),
+        rule: "schedules (engine A, deviation-bounded, real code): handlers of one signal running on three threads at once with the origin exfiltrator, every origin handed out carries the facts of a delivery; complete grid sending mechanism (13, incl. a delivery after an info-less first registration of the signal and a burst longer than the per-signal buffer: every record that comes out must be one of the deliveries) x catchable non-forbidden signal (quick: 6 representative numbers; thorough: all) with the delivery observed by the library twice and by an independent chained SA_SIGINFO reader; plus the complete synthetic grid si_signo 1..64 x si_code in [-10,10]+{0x80,MIN,MAX} with a poisoned union, and again with si_pid / si_uid in {(0,4242), (0,0), (4242,0), (1,1)} (pid 0 = sender outside the receiver's pid namespace); distinct = distinct (mechanism, raw si_code) and (cause class, process?) pairs".into(),
         assumptions: vec!["the independent reader uses libc's own siginfo accessors".into(), "feature extended-siginfo (extract.c compiled with the system C compiler)".into()],
     }
 }
